@@ -333,8 +333,11 @@ def build(tier):
     ] + dispatch_targets()
     import realvcs
     bounded, finfo = realvcs.build(tier)
+    import generic
+    gvcs, ginfo = realvcs.guarded(generic.build, 'generic-coordinate obligations')()
+    finfo = finfo + [f for f in ginfo if f['c_name'] not in {x['c_name'] for x in finfo}]
     return {
-        'targets': targets, 'vcs': smax_real_vcs(), 'bounded': bounded, 'functions': finfo,
+        'targets': targets, 'vcs': smax_real_vcs() + gvcs, 'bounded': bounded, 'functions': finfo,
         'decided': [
             'solver_t::done: status\' == converged <=> program.feasible(state) && eta < eps && no residual norm (|rdual|, |rprim|) is >= eps; '
             'otherwise unbounded if feasible, unfeasible if not; nothing but m_status is written (for norms that are not NaN this is literally '
@@ -379,6 +382,11 @@ def build(tier):
             '(Boyd & Vandenberghe (11.53) with t = miu m / eta), leaves eta / rcent alone without inequalities and rprim without equalities, and writes nothing '
             'else; solver_state_t::residual() == ||(rdual, rcent, rprim)||_2; solver_state_t::update stores in m_kkt exactly the largest of the five KKT tests '
             '(infinity norms) at the stored (x, u, v) and writes nothing else',
+            'GENERIC COORDINATE, every size (specs/C04/generic.py; arrays by their coefficient at one generic index, reductions as sums known up to their '
+            'summand, a matrix-vector product as a NAMED array): ::normalize returns max(min_norm, ||A||_F, ||b||_2) >= min_norm and divides the generic '
+            'coefficient of A and of b by it; program_t::update<vector_t> (QP and LP): eta == -sum_i u_i ((G x)_i - h_i) for m > 0 and untouched for m == 0, '
+            'rcent_i == -u_i ((G x)_i - h_i) - eta / (miu m), rdual_i == (Q x)_i + c_i + (G\'u)_i + (A\'v)_i with the terms of absent blocks dropped, rprim_i == '
+            '(A x)_i - b_i for p > 0, fx == mufx (1/2 sum x_i (Q x)_i + sum x_i c_i), operand sizes agree, and the products that occur are exactly Q x, G x, A x, G\'u, A\'v',
             'BOUNDED (same shapes), NORMALISATION (specs/C04/scaling.py): ::normalize returns d == max(min_norm, ||A||_F, ||b||_2) >= min_norm, divides BOTH A '
             'and b by d, and the scaled rows describe the same feasible / strictly feasible set row by row (=, <=, <), the scaled objective the same order of '
             'points; program_t(Q, c, A, b, G, h), walked initialiser by initialiser: m_mufx == M = max(1e-3, ||Q||_F, ||c||_2) of the CALLER\'s objective, each of '
@@ -432,8 +440,9 @@ def build(tier):
             'make_smax in IEEE arithmetic: result > 0 (the quotient -u_i / du_i can underflow to +0; proved over the reals only)',
             'the size precondition of make_smax at its call site in solve_with_inequality (u and du both have m coefficients) needs Eigen size '
             'reasoning; there make_smax is an arbitrary side-effect-free double',
-            'the residual definitions, the normalisation, the KKT system and the Newton step for GENERAL sizes and in floating point: they are checked over '
-            'the reals at n <= 3, p <= 2, m <= 2 only (bounded stand-ins, never counted as proved); inside the CBMC protocol targets program_t::solve / '
+            'the residual definitions, the normalisation, the KKT system and the Newton step for GENERAL sizes and in floating point: with the matrix products '
+            'EXPANDED they are checked over the reals at n <= 3, p <= 2, m <= 2 only (bounded stand-ins, never counted as proved); for every size only the '
+            'coefficient-wise / reduction structure around the (uninterpreted) products is proved (generic.py); inside the CBMC protocol targets program_t::solve / '
             'solver_state_t::update / residual stay havoc of what they assign',
             'Eigen::FullPivLU itself (in its default configuration the reduced rows span the same solution set and are independent; note that for a rank-deficient '
             '[A | b] they are linear COMBINATIONS of the caller\'s rows, not a subset, so the returned v are multipliers of the transformed rows) and nano::stack: '
@@ -494,6 +503,9 @@ def build(tier):
             'have their Eigen shapes; nano::stack(rows, cols, A, b) is [A | b] (shape '
             'conditions obliged); Eigen::LDLT: compute(M) then solve(r) returns s with M s == r; the loop-head state of solve_with_inequality, the parameter '
             'values and the contents of freshly allocated buffers are arbitrary',
+            'generic-coordinate obligations: double as real; the closed list of Eigen operations of specs/C06/eig.py; a matrix-vector product M * v is an '
+            'uninterpreted array of length rows(M) determined by (M, transposed?, v) (Eigen::Product checked in the deduced type, inner dimensions obliged); '
+            'finite sums: equal summands (up to commutativity of + and *) give equal sums, sums of non-negative summands are non-negative (specs/C06/vcgen.py)',
             'composition (compose.py): state.m_x is the x program_t::update was handed (data flow: CBMC target solve_with_inequality_res, with its exhausted-line-search '
             'case); nano::epsilon2<double>() is ONE arbitrary real constant (nothing is assumed about its value); the arithmetic side conditions epsilon dA <= 1e-6 '
             '(1 + ||b_r||_inf) and epsilon2 dG <= 1e-6 (1 + ||h||_inf) of the two *_tolerance clauses are hypotheses of exactly those clauses',
